@@ -299,7 +299,8 @@ class HydrodynamicsTemplateModel:
 
         """
         vm = min(self.cb, vw)
-        vpMax = min(self.cs2 / vw, vw) if constraint else vm
+        # vp cannot exceed vm on the deflagration/hybrid branch (for hybrids vw > vm)
+        vpMax = min(self.cs2 / vw, vm) if constraint else vm
 
         # Find lower and upper bounds on alpha
         alMin = max(
